@@ -357,6 +357,18 @@ static uint64_t fp_value(char cls, int bytes, vj::Rng& r) {
       int64_t v = 1 + int64_t(r.below(r.below(3) ? 12 : 40));
       return mk(double(r.below(2) ? v : -v));
     }
+    case 'B': {   // integers whose products are NOT exactly representable (the fused / unfused results differ)
+      int64_t lim = f32 ? (1 << 24) : (1 << 30);
+      int64_t v;
+      switch (r.below(6)) {
+        case 0: v = int64_t(r.below(2001)) - 1000; break;
+        case 1: v = (lim >> 12) + 1; break;                           // 4097 / 2^18 + 1
+        case 2: v = lim - 1 - int64_t(r.below(16)); break;
+        default: v = int64_t(r.below(uint64_t(lim))); break;
+      }
+      if (r.below(2)) v = -v;
+      return mk(double(v));
+    }
     case 'P': {   // small positive integers 1..1000
       return mk(double(1 + r.below(r.below(3) ? 40 : 1000)));
     }
@@ -615,6 +627,15 @@ static void gen_inputs(Io& io, const VMeta& m, vj::Rng& r, int round, const std:
   fill_vec(io.b + kOffB, m.lane, m.clsb ? m.clsb : m.cls, r);
   fill_vec(io.b + kOffC, m.lane, m.clsc ? m.clsc : m.cls, r);
   fill_vec(io.b + kOffD0, m.lane, 'x', r);
+  if ((starts(name, "kMAddF") || starts(name, "kMSubF") || starts(name, "kNMAddF") || starts(name, "kNMSubF")) && (round % 2) == 1) {
+    fill_vec(io.b + kOffA, m.lane, 'B', r);
+    fill_vec(io.b + kOffB, m.lane, 'B', r);
+    for (int i = 0; i < 64; i += m.lane) {
+      // c = +-round(a * b) (+ small integer): cancellation exposes the rounding of the product
+      if (m.lane == 4) { float a, b; memcpy(&a, io.b + kOffA + i, 4); memcpy(&b, io.b + kOffB + i, 4); volatile float p = a * b; float c = (r.below(2) ? p : -p) + float(int(r.below(5)) - 2); if (r.below(4) == 0) c = float(int64_t(r.below(1u << 30))); memcpy(io.b + kOffC + i, &c, 4); }
+      else { double a, b; memcpy(&a, io.b + kOffA + i, 8); memcpy(&b, io.b + kOffB + i, 8); volatile double p = a * b; double c = (r.below(2) ? p : -p) + double(int(r.below(5)) - 2); if (r.below(4) == 0) c = double(int64_t(r.below(1ull << 50))); memcpy(io.b + kOffC + i, &c, 8); }
+    }
+  }
   if (starts(name, "kDiv")) {
     // a = q * b with q a small integer so that the quotient is exact
     for (int i = 0; i < 64; i += m.lane) {
@@ -646,7 +667,8 @@ static void run_vec_case(Jit& jit, const VecCase& vc, const Level& lvl, const VM
   CaseKey ck; ck.k = vc.kind; ck.op = vc.name; ck.form = vc.form; ck.lvl = lvl.name; ck.w = vc.w;
   ck.imm = (vc.kind == "vvi" || vc.kind == "vvvi") ? (long long)vc.imm : -1;
   g_ncompiled++;
-  auto body = [&](UniCompiler& uc, x86::Compiler& cc, const x86::Gp& io) { vec_body(vc, lvl, uc, cc, io); };
+  bool fused = false;
+  auto body = [&](UniCompiler& uc, x86::Compiler& cc, const x86::Gp& io) { fused = uc.is_fmadd_fused(); vec_body(vc, lvl, uc, cc, io); };
   Built b = jit.build(lvl, vc.w, body);
   if (!b.fn) {
     // rejected by asmjit's own validation: recorded as a failure; the semantics is still observed without validation
@@ -691,7 +713,7 @@ static void run_vec_case(Jit& jit, const VecCase& vc, const Level& lvl, const VM
       }
       w.bytes("a", in.b + kOffA, W);
       if (vc.kind != "vv" && vc.kind != "vvi") w.bytes("b", in.b + kOffB, W);
-      if (vc.kind == "vvvv") w.bytes("c", in.b + kOffC, W);
+      if (vc.kind == "vvvv") { w.bytes("c", in.b + kOffC, W); w.kv("fused", fused); }   // fused = UniCompiler::is_fmadd_fused() (documented getter)
       w.bytes("d0", in.b + kOffD0, W);
       w.bytes("out", io.b + kOffDst, W);
       w.endObj(); w.emit(g_out); g_nobs++;
